@@ -34,6 +34,37 @@ Proof. destruct r; reflexivity. Qed.
 Lemma end_of_eq fi : match fi with FinEof => EndIo UnexpectedEof | FinErr => EndIo IoOther | FinPending => EndPending end = end_of fi.
 Proof. destruct fi; reflexivity. Qed.
 
+(* more fuel does not change a result that did not run out of fuel (any parser, any reader) *)
+Lemma nf_fuel_mono : forall f r n fi x, next_frame f r n fi = x -> snd x <> NfEnd EndOutOfFuel ->
+  forall k, next_frame (f + k) r n fi = x.
+Proof.
+  induction f as [|f IH]; intros r n fi x E Hx k.
+  - cbn [next_frame] in E. subst x. cbn [snd] in Hx. congruence.
+  - cbn [next_frame Nat.add] in *. destruct (parser_parse (r_parser r) (r_buf r)) as [[p' b'] res].
+    destruct res as [[fr|]|e|]; try exact E.
+    destruct n as [|c n']; [exact E|].
+    destruct (read_some b' c) as [b2 rs]. destruct rs as [j rest| |]; try exact E.
+    destruct rest; apply IH; assumption.
+Qed.
+
+Lemma sbytes_app_le n1 n2 : length (sbytes (n1 ++ n2)) <= length (sbytes n1) + length (sbytes n2).
+Proof. induction n1 as [|c n1 IH]; [cbn; lia|]. destruct c; cbn [app sbytes length]; [lia|]. rewrite !app_length. cbn [length]. lia. Qed.
+(* a schedule without an empty chunk *)
+Lemma sfin_pending_app n1 : sfin n1 FinPending = FinPending ->
+  forall n2 fi, sbytes (n1 ++ n2) = sbytes n1 ++ sbytes n2 /\ sfin (n1 ++ n2) fi = sfin n2 fi.
+Proof.
+  induction n1 as [|c n1 IH]; intros H n2 fi; [split; reflexivity|]. destruct c; [discriminate|].
+  cbn [sfin] in H. destruct (IH H n2 fi) as [E1 E2]. cbn [app sbytes sfin]. rewrite E1, E2, <- app_assoc. split; reflexivity.
+Qed.
+
+Lemma run_reader_st_snd : forall fuel r n fi, snd (run_reader_st fuel r n fi) = run_reader fuel false r n fi.
+Proof.
+  induction fuel as [|fuel IH]; intros r n fi; [reflexivity|]. cbn [run_reader_st run_reader].
+  destruct (next_frame (nf_fuel n) r n fi) as [[r' n'] res]. destruct res as [f|e].
+  - specialize (IH r' n' fi). destruct (run_reader_st fuel r' n' fi) as [r'' [l e]]. cbn [snd] in *. now rewrite <- IH.
+  - destruct e; reflexivity.
+Qed.
+
 Section Generic.
 Variable pst : Type.
 Variable mk : pst -> parser.
@@ -216,5 +247,374 @@ Proof using All.
   unfold nf_post in H. destruct (next_frame fuel (rd st b) n fi) as [[r' n'] res]. cbn [snd].
   destruct res as [f|e]; [split; discriminate|]. destruct e; try (split; discriminate); destruct H as (H1 & H2 & _); congruence.
 Qed.
+
+
+(* ================================================================================================
+   Compositionality and cancel-safety.
+   next_frame is one branch of a tokio::select! in SessionTask::run_one, ClientLoop::poll and
+   ClientLoop::execute_request: when another branch fires, the future is dropped while it waits
+   for bytes and a NEW call starts later from the reader's state. An abandoned call is a call over
+   a schedule that ends `FinPending` with result EndPending. Everything below holds for every
+   split of a schedule at a chunk boundary.
+   ================================================================================================ *)
+
+(* a waiting parser asked again with the same pending bytes says "need more" again and changes nothing *)
+Hypothesis H_stable : forall st b, wf b -> okl (b_pend b) -> st_ok st -> buf_len b < need st -> pp st b = (st, b, Ok None).
+
+Lemma nf_enough fuel st b n fi : wf b -> okl (b_pend b) -> Forall okl n -> st_ok st -> length (concat n) < fuel ->
+  snd (next_frame fuel (rd st b) n fi) <> NfEnd EndOutOfFuel.
+Proof using All. intros. now apply nf_no_panic. Qed.
+
+(* with enough fuel the result does not depend on the fuel *)
+Lemma nf_fuel_indep f1 f2 st b n fi : wf b -> okl (b_pend b) -> Forall okl n -> st_ok st ->
+  length (concat n) < f1 -> length (concat n) < f2 ->
+  next_frame f1 (rd st b) n fi = next_frame f2 (rd st b) n fi.
+Proof using All.
+  intros Hwf Hok Hokn Hst H1 H2.
+  destruct (Nat.le_ge_cases f1 f2) as [Hle|Hle].
+  - replace f2 with (f1 + (f2 - f1)) by lia. symmetry. apply nf_fuel_mono; [reflexivity|now apply nf_enough].
+  - replace f1 with (f2 + (f1 - f2)) by lia. apply nf_fuel_mono; [reflexivity|now apply nf_enough].
+Qed.
+
+(* the state a call is in while it waits for bytes *)
+Definition waiting (r : reader) : Prop :=
+  exists st b, r = rd st b /\ wf b /\ okl (b_pend b) /\ st_ok st /\ buf_len b < need st /\ prep b = b.
+
+(* next_frame over n1 ++ n2: if the call over n1 alone would still be waiting at the end of n1, the
+   call over n1 ++ n2 is the call over n2 started from the reader the abandoned call left behind;
+   otherwise it already returned inside n1 and n2 is untouched *)
+Theorem nf_app : forall fuel st b n1 n2 fi F2,
+  wf b -> okl (b_pend b) -> Forall okl n1 -> Forall okl n2 -> st_ok st ->
+  length (concat n1) < fuel -> length (concat n2) < F2 ->
+  match next_frame fuel (rd st b) n1 FinPending with
+  | (r1, n1', NfEnd EndPending) =>
+      n1' = [] /\ waiting r1 /\
+      (exists consumed, b_pend b ++ sbytes n1 = consumed ++ b_pend (r_buf r1)) /\
+      sfin n1 FinPending = FinPending /\
+      next_frame (fuel + F2) (rd st b) (n1 ++ n2) fi = next_frame F2 r1 n2 fi
+  | (r1, n1', res) => next_frame (fuel + F2) (rd st b) (n1 ++ n2) fi = (r1, n1' ++ n2, res)
+  end.
+Proof using All.
+  induction fuel as [|fuel IH]; intros st b n1 n2 fi F2 Hwf Hok Hokn1 Hokn2 Hst Hfuel HF2; [lia|].
+  assert (Hokc : forall k, okl (b_pend (consume k b))) by (intros k; cbn [consume b_pend]; now apply okl_skipn).
+  cbn [next_frame Nat.add rd r_parser r_buf]. rewrite H_mk. destruct (pp st b) as [[st' b'] r] eqn:Ep.
+  destruct r as [[f|]|e|]; try reflexivity.
+  destruct (H_none _ _ _ _ Hwf Hok Hst Ep) as (Hst' & Hstuck & (k & -> & Hk & Hck) & Href).
+  assert (Hwf' := consume_wf _ _ Hwf Hk).
+  assert (Hcap : buf_len (consume k b) < cap) by (specialize (H_need_cap _ Hst'); lia).
+  destruct n1 as [|c n1'].
+  - (* the call over n1 is abandoned here *)
+    rewrite (read_some_nil_prep _ Hwf'). cbn [app].
+    assert (Hw : waiting (rd st' (prep (consume k b)))).
+    { exists st', (prep (consume k b)). split; [reflexivity|]. split; [now apply prep_wf|]. rewrite prep_pend. split; [apply Hokc|].
+      split; [assumption|]. split; [unfold buf_len in *; now rewrite prep_pend|apply prep_idem]. }
+    split; [reflexivity|]. split; [exact Hw|].
+    split; [exists (firstn k (b_pend b)); cbn [sbytes rd r_buf]; rewrite prep_pend, app_nil_r; cbn [consume b_pend]; now rewrite firstn_skipn|].
+    split; [reflexivity|].
+    (* the fresh call: parse again (nothing happens), then the same read *)
+    destruct F2 as [|F2]; [lia|]. cbn [next_frame rd r_parser r_buf]. rewrite H_mk.
+    rewrite (H_stable st' (prep (consume k b))); [|now apply prep_wf|rewrite prep_pend; apply Hokc|assumption|unfold buf_len in *; now rewrite prep_pend].
+    destruct n2 as [|c2 n2'].
+    + rewrite ?(read_some_nil_prep _ Hwf'), (read_some_nil_prep _ (prep_wf _ Hwf')), prep_idem. reflexivity.
+    + rewrite read_some_prep. destruct (read_some (consume k b) c2) as [b2 rs] eqn:Ers. destruct rs as [j rest| |]; try reflexivity.
+      destruct c2 as [|x c2]; [rewrite (read_some_nil_prep _ Hwf') in Ers; discriminate|].
+      destruct (read_some_ok (consume k b) (x :: c2) Hwf' Hcap ltac:(discriminate)) as (j' & b'' & Hrs & Hj & Hp'' & Hwf'').
+      rewrite Hrs in Ers. inversion Ers; subst; clear Ers.
+      assert (Hokx : okl (x :: c2) /\ Forall okl n2') by (inversion Hokn2; subst; split; assumption). destruct Hokx as [Hokx Hokn2'].
+      assert (Hok'' : okl (b_pend b2)) by (rewrite Hp''; apply okl_app; [apply Hokc|now apply okl_firstn]).
+      assert (Hrest : length (skipn j (x :: c2)) = length (x :: c2) - j) by apply skipn_length.
+      cbn [concat] in HF2. rewrite app_length in HF2.
+      destruct (skipn j (x :: c2)) as [|y rest] eqn:Erest.
+      * apply nf_fuel_indep; try assumption; cbn [length] in *; lia.
+      * apply nf_fuel_indep; try assumption.
+        -- constructor; [rewrite <- Erest; now apply okl_skipn|assumption].
+        -- cbn [concat]. rewrite app_length. cbn [length] in *. lia.
+        -- cbn [concat]. rewrite app_length. cbn [length] in *. lia.
+  - cbn [app]. destruct c as [|x c].
+    + rewrite (read_some_nil_prep _ Hwf'). reflexivity.
+    + destruct (read_some_ok (consume k b) (x :: c) Hwf' Hcap ltac:(discriminate)) as (j & b'' & Hrs & Hj & Hp'' & Hwf'').
+      rewrite Hrs.
+      assert (Hokx : okl (x :: c) /\ Forall okl n1') by (inversion Hokn1; subst; split; assumption). destruct Hokx as [Hokx Hokn1'].
+      assert (Hok'' : okl (b_pend b'')) by (rewrite Hp''; apply okl_app; [apply Hokc|now apply okl_firstn]).
+      assert (Hrest : length (skipn j (x :: c)) = length (x :: c) - j) by apply skipn_length.
+      cbn [concat] in Hfuel. rewrite app_length in Hfuel.
+      assert (Hsplit : forall tl, b_pend (consume k b) ++ (x :: c) ++ tl = b_pend b'' ++ skipn j (x :: c) ++ tl).
+      { intros tl. rewrite Hp'', <- !app_assoc. f_equal. rewrite app_assoc, firstn_skipn. reflexivity. }
+      assert (Hgoal : forall n1x, sbytes n1x = skipn j (x :: c) ++ sbytes n1' -> sfin n1x FinPending = sfin n1' FinPending -> Forall okl n1x -> length (concat n1x) < fuel ->
+        match next_frame fuel (rd st' b'') n1x FinPending with
+        | (r1, n1r, NfEnd EndPending) =>
+            n1r = [] /\ waiting r1 /\
+            (exists consumed, b_pend b ++ sbytes ((x :: c) :: n1') = consumed ++ b_pend (r_buf r1)) /\
+            sfin ((x :: c) :: n1') FinPending = FinPending /\
+            next_frame (fuel + F2) (rd st' b'') (n1x ++ n2) fi = next_frame F2 r1 n2 fi
+        | (r1, n1r, res) => next_frame (fuel + F2) (rd st' b'') (n1x ++ n2) fi = (r1, n1r ++ n2, res)
+        end).
+      { intros n1x Hs Hsf Hokx1 Hfu. specialize (IH st' b'' n1x n2 fi F2 Hwf'' Hok'' Hokx1 Hokn2 Hst' Hfu HF2).
+        destruct (next_frame fuel (rd st' b'') n1x FinPending) as [[r1 n1r] res]. destruct res as [f|e]; [exact IH|].
+        destruct e; try exact IH. destruct IH as (-> & Hw & (cs & Hcs) & Hsf1 & Heq). repeat split; try assumption; [|cbn [sfin]; now rewrite <- Hsf].
+        exists (firstn k (b_pend b) ++ cs). rewrite <- app_assoc, <- Hcs, Hs. change (sbytes ((x :: c) :: n1')) with ((x :: c) ++ sbytes n1').
+        rewrite <- Hsplit. cbn [consume b_pend]. now rewrite !app_assoc, firstn_skipn. }
+      destruct (skipn j (x :: c)) as [|y rest] eqn:Erest.
+      * apply Hgoal; [reflexivity|reflexivity|assumption|]. cbn [length] in *. lia.
+      * change ((y :: rest) :: n1' ++ n2) with (((y :: rest) :: n1') ++ n2). apply Hgoal; [reflexivity|reflexivity| |].
+        -- constructor; [rewrite <- Erest; now apply okl_skipn|assumption].
+        -- cbn [concat]. rewrite app_length. cbn [length] in *. lia.
+Qed.
+
+(* CANCEL-SAFETY, in the form the callers need it: a call over n1 that is abandoned while it waits,
+   followed by a fresh call over n2 from the reader it left behind, returns what one
+   uninterrupted call over n1 ++ n2 returns: same frame / error, same reader, same rest of the schedule *)
+Corollary nf_cancel_safe : forall st b n1 n2 fi r1 n1' F1 F2 F,
+  wf b -> okl (b_pend b) -> Forall okl n1 -> Forall okl n2 -> st_ok st ->
+  length (concat n1) < F1 -> length (concat n2) < F2 -> length (concat (n1 ++ n2)) < F ->
+  next_frame F1 (rd st b) n1 FinPending = (r1, n1', NfEnd EndPending) ->
+  next_frame F2 r1 n2 fi = next_frame F (rd st b) (n1 ++ n2) fi /\ waiting r1.
+Proof using All.
+  intros st b n1 n2 fi r1 n1' F1 F2 F Hwf Hok Hokn1 Hokn2 Hst H1 H2 HF E.
+  pose proof (nf_app F1 st b n1 n2 fi F2 Hwf Hok Hokn1 Hokn2 Hst H1 H2) as H. rewrite E in H.
+  destruct H as (_ & Hw & _ & _ & Heq). split; [|exact Hw]. rewrite <- Heq.
+  apply nf_fuel_indep; try assumption.
+  - apply Forall_app; split; assumption.
+  - rewrite concat_app, app_length in *. lia.
+Qed.
+
+
+(* ---- whole runs ---- *)
+(* fuel a run needs from state st: one call per frame, each later frame takes >= 1 byte, one call for the ending *)
+Definition rmeasure (st : pst) (b : buf) (n : net) : nat := length (b_pend b ++ sbytes n) + (1 - cons_need st).
+
+Lemma run_st_fuel_indep : forall G1 G2 st b n fi, wf b -> okl (b_pend b) -> Forall okl n -> st_ok st ->
+  rmeasure st b n < G1 -> rmeasure st b n < G2 ->
+  run_reader_st G1 (rd st b) n fi = run_reader_st G2 (rd st b) n fi.
+Proof using All.
+  induction G1 as [|G1 IH]; intros G2 st b n fi Hwf Hok Hokn Hst H1 H2; [lia|]. destruct G2 as [|G2]; [lia|].
+  cbn [run_reader_st].
+  pose proof (nf_ref (nf_fuel n) st b n fi (S (length (b_pend b ++ sbytes n))) Hwf Hok Hokn Hst ltac:(unfold nf_fuel; lia) ltac:(lia)) as Hnf.
+  unfold nf_post in Hnf. cbv zeta in Hnf. pose proof H_cons_init as Hci. unfold rmeasure in *.
+  destruct (next_frame (nf_fuel n) (rd st b) n fi) as [[r' n'] res]. destruct res as [f|e]; [|reflexivity].
+  destruct Hnf as (b' & -> & Hwf' & Hok' & Hokn' & _ & _ & Hl & _).
+  rewrite (IH G2 init b' n' fi Hwf' Hok' Hokn' H_init_ok); [reflexivity|unfold rmeasure; lia|unfold rmeasure; lia].
+Qed.
+
+(* a run over n1 ++ n2 = the run over n1; if that one is still waiting at the end of n1, continued
+   from the reader it left behind over n2 (frames concatenated); otherwise it ended inside n1 *)
+Theorem run_st_app : forall G1 st b n1 n2 fi G2 G,
+  wf b -> okl (b_pend b) -> Forall okl n1 -> Forall okl n2 -> st_ok st ->
+  rmeasure st b n1 < G1 ->
+  length (b_pend b ++ sbytes n1) + length (sbytes n2) + 1 < G2 ->
+  rmeasure st b n1 + length (sbytes n2) + 1 < G ->
+  run_reader_st G (rd st b) (n1 ++ n2) fi =
+  match run_reader_st G1 (rd st b) n1 FinPending with
+  | (r1, (l1, EndPending)) => let '(r2, (l2, e2)) := run_reader_st G2 r1 n2 fi in (r2, (l1 ++ l2, e2))
+  | x => x
+  end.
+Proof using All.
+  induction G1 as [|G1 IH]; intros st b n1 n2 fi G2 G Hwf Hok Hokn1 Hokn2 Hst H1 H2 HG; [lia|].
+  destruct G as [|G]; [lia|]. cbn [run_reader_st].
+  pose proof H_cons_init as Hci. unfold rmeasure in H1, HG.
+  assert (Hokn : Forall okl (n1 ++ n2)) by (apply Forall_app; split; assumption).
+  (* the first call of the combined run, through nf_app *)
+  pose proof (nf_app (nf_fuel n1) st b n1 n2 fi (nf_fuel n2) Hwf Hok Hokn1 Hokn2 Hst ltac:(unfold nf_fuel; lia) ltac:(unfold nf_fuel; lia)) as Happ.
+  rewrite (nf_fuel_indep (nf_fuel n1 + nf_fuel n2) (nf_fuel (n1 ++ n2)) st b (n1 ++ n2) fi Hwf Hok Hokn Hst) in Happ
+    by (unfold nf_fuel; rewrite ?concat_app, ?app_length; lia).
+  pose proof (nf_ref (nf_fuel n1) st b n1 FinPending (S (length (b_pend b ++ sbytes n1))) Hwf Hok Hokn1 Hst ltac:(unfold nf_fuel; lia) ltac:(lia)) as Hnf.
+  unfold nf_post in Hnf. cbv zeta in Hnf.
+  destruct (next_frame (nf_fuel n1) (rd st b) n1 FinPending) as [[r' n1'] res]. destruct res as [f|e].
+  - (* a frame inside n1 *)
+    rewrite Happ. destruct Hnf as (b' & -> & Hwf' & Hok' & Hokn' & _ & _ & Hl & _).
+    rewrite (IH init b' n1' n2 fi G2 G Hwf' Hok' Hokn' Hokn2 H_init_ok); [|unfold rmeasure; lia|lia|unfold rmeasure; lia].
+    destruct (run_reader_st G1 (rd init b') n1' FinPending) as [r1 [l1 e1]].
+    destruct e1; try reflexivity. destruct (run_reader_st G2 r1 n2 fi) as [r2 [l2 e2]]. reflexivity.
+  - destruct e as [e| | | |]; try (rewrite Happ; reflexivity).
+    (* still waiting at the end of n1: the combined run goes on with the calls over n2 *)
+    destruct Happ as (-> & Hw & (cs & Hcs) & _ & Happ). rewrite Happ. clear Happ.
+    destruct Hw as (st1 & b1 & -> & Hwf1 & Hok1 & Hst1 & Hlt1 & _).
+    destruct Hnf as (_ & _ & Hr).
+    destruct G2 as [|G2]; [lia|]. cbn [run_reader_st app].
+    pose proof (nf_ref (nf_fuel n2) st1 b1 n2 fi (S (length (b_pend b1 ++ sbytes n2))) Hwf1 Hok1 Hokn2 Hst1 ltac:(unfold nf_fuel; lia) ltac:(lia)) as Hnf2.
+    unfold nf_post in Hnf2. cbv zeta in Hnf2.
+    destruct (next_frame (nf_fuel n2) (rd st1 b1) n2 fi) as [[r2 n2'] res2]. destruct res2 as [f2|e2]; [|reflexivity].
+    destruct Hnf2 as (b2 & -> & Hwf2 & Hok2 & Hokn2' & _ & _ & Hl2 & _).
+    (* how much can be pending in b1: what was there plus all of n1 *)
+    assert (Hb1 : length (b_pend b1) <= length (b_pend b ++ sbytes n1)).
+    { cbn [rd r_buf] in Hcs. rewrite Hcs, app_length. lia. }
+    rewrite (run_st_fuel_indep G G2 init b2 n2' fi Hwf2 Hok2 Hokn2' H_init_ok); [|unfold rmeasure; rewrite !app_length in *; lia|unfold rmeasure; rewrite !app_length in *; lia].
+    destruct (run_reader_st G2 (rd init b2) n2' fi) as [r3 [l3 e3]]. reflexivity.
+Qed.
+
+
+(* the run from ANY reachable reader state is the state-indexed Spec (run_ref is the case st = init) *)
+Theorem run_ref_from : forall G st b n fi F,
+  wf b -> okl (b_pend b) -> Forall okl n -> st_ok st ->
+  rmeasure st b n < G -> length (b_pend b ++ sbytes n) < F ->
+  run_reader G false (rd st b) n fi = liftr (ref_from F st (b_pend b ++ sbytes n) (sfin n fi)).
+Proof using All.
+  intros G st b n fi F Hwf Hok Hokn Hst HG HF. destruct G as [|G]; [lia|]. cbn [run_reader].
+  pose proof (nf_ref (nf_fuel n) st b n fi F Hwf Hok Hokn Hst ltac:(unfold nf_fuel; lia) HF) as Hnf.
+  unfold nf_post in Hnf. cbv zeta in Hnf. pose proof H_cons_init as Hci. unfold rmeasure in HG.
+  destruct (next_frame (nf_fuel n) (rd st b) n fi) as [[r' n'] res]. destruct res as [f|e].
+  - destruct Hnf as (b' & -> & Hwf' & Hok' & Hokn' & Hsf & Hr & Hl & _). rewrite Hr.
+    rewrite (run_ref G b' n' fi F Hwf' Hok' Hokn'); [|lia|lia]. rewrite Hsf.
+    destruct (rf F (b_pend b' ++ sbytes n') (sfin n fi)) as [fs e]. reflexivity.
+  - destruct e; try (destruct Hnf as (_ & _ & ->); reflexivity). destruct Hnf as (-> & _). reflexivity.
+Qed.
+
+(* a run that ends waiting: the reader it leaves behind, and nothing lost *)
+Theorem run_st_pending : forall G st b n r1 l1,
+  wf b -> okl (b_pend b) -> Forall okl n -> st_ok st -> rmeasure st b n < G ->
+  run_reader_st G (rd st b) n FinPending = (r1, (l1, EndPending)) ->
+  waiting r1 /\ sfin n FinPending = FinPending /\
+  exists consumed, b_pend b ++ sbytes n = consumed ++ b_pend (r_buf r1).
+Proof using All.
+  induction G as [|G IH]; intros st b n r1 l1 Hwf Hok Hokn Hst HG E; [lia|]. cbn [run_reader_st] in E.
+  pose proof H_cons_init as Hci. unfold rmeasure in HG.
+  pose proof (nf_ref (nf_fuel n) st b n FinPending (S (length (b_pend b ++ sbytes n))) Hwf Hok Hokn Hst ltac:(unfold nf_fuel; lia) ltac:(lia)) as Hnf.
+  pose proof (nf_app (nf_fuel n) st b n [] FinPending 1 Hwf Hok Hokn ltac:(constructor) Hst ltac:(unfold nf_fuel; lia) ltac:(cbn; lia)) as Happ.
+  unfold nf_post in Hnf. cbv zeta in Hnf.
+  destruct (next_frame (nf_fuel n) (rd st b) n FinPending) as [[r' n'] res]. destruct res as [f|e].
+  - destruct Hnf as (b' & -> & Hwf' & Hok' & Hokn' & Hsf & _ & Hl & (cs & Hcs)).
+    destruct (run_reader_st G (rd init b') n' FinPending) as [r2 [l2 e2]] eqn:E2. inversion E; subst.
+    destruct (IH init b' n' r1 l2 Hwf' Hok' Hokn' H_init_ok ltac:(unfold rmeasure; lia) E2) as (Hw & Hs & (cs2 & Hcs2)).
+    split; [exact Hw|]. split; [now rewrite <- Hsf|]. exists (cs ++ cs2). now rewrite Hcs, Hcs2, app_assoc.
+  - destruct e; inversion E; subst. destruct Happ as (_ & Hw & Hc & Hs & _). repeat split; assumption.
+Qed.
+
+
+(* CANCEL-SAFETY of whole sessions: abandoning the waiting call at every chunk boundary changes nothing *)
+Theorem run_cancel_eq : forall n st b fi G,
+  wf b -> okl (b_pend b) -> Forall okl n -> st_ok st ->
+  length (b_pend b) + length (concat n) + 2 < G ->
+  run_cancel (rd st b) n fi = run_reader G false (rd st b) n fi.
+Proof using All.
+  induction n as [|c rest IH]; intros st b fi G Hwf Hok Hokn Hst HG; cbn [run_cancel].
+  - rewrite <- !run_reader_st_snd. f_equal. apply run_st_fuel_indep; try assumption; unfold rmeasure, run_fuel; cbn [rd r_buf sbytes concat length]; rewrite app_nil_r; unfold buf_len; lia.
+  - assert (Hokc : Forall okl [c]) by (inversion Hokn; subst; constructor; [assumption|constructor]).
+    assert (Hokr : Forall okl rest) by (inversion Hokn; assumption).
+    pose proof (sbytes_le [c]) as Hs1. pose proof (sbytes_le rest) as Hs2. cbn [concat] in HG, Hs1. rewrite app_length in HG. rewrite app_nil_r in Hs1.
+    assert (Hm1 : rmeasure st b [c] < run_fuel (rd st b) [c]).
+    { unfold rmeasure, run_fuel. cbn [rd r_buf concat]. rewrite app_nil_r, app_length. unfold buf_len. lia. }
+    pose proof (run_st_app (run_fuel (rd st b) [c]) st b [c] rest fi G G Hwf Hok Hokc Hokr Hst Hm1
+                  ltac:(rewrite app_length; lia) ltac:(unfold rmeasure; rewrite app_length; lia)) as Happ.
+    change ([c] ++ rest) with (c :: rest) in Happ.
+    rewrite <- (run_reader_st_snd G (rd st b) (c :: rest) fi), Happ.
+    destruct (run_reader_st (run_fuel (rd st b) [c]) (rd st b) [c] FinPending) as [r1 [l1 e1]] eqn:E1.
+    destruct e1; try reflexivity.
+    destruct (run_st_pending _ st b [c] r1 l1 Hwf Hok Hokc Hst Hm1 E1) as (Hw & _ & (cs & Hcs)).
+    destruct Hw as (st1 & b1 & -> & Hwf1 & Hok1 & Hst1 & _ & _). cbn [rd r_buf] in Hcs.
+    assert (Hb1 : length (b_pend b1) <= length (b_pend b) + length c).
+    { apply (f_equal (@length N)) in Hcs. rewrite !app_length in Hcs. lia. }
+    rewrite (IH st1 b1 fi G Hwf1 Hok1 Hokr Hst1 ltac:(lia)).
+    rewrite <- run_reader_st_snd. destruct (run_reader_st G (rd st1 b1) rest fi) as [r2 [l2 e2]]. reflexivity.
+Qed.
+
+(* ================================================================================================
+   A reader that REPRESENTS a Spec leftover. `represents r t`: r is waiting, and from r the future
+   looks exactly as it looks to the Spec after the unconsumed bytes t. A fresh reader represents [];
+   a run that ends waiting leaves a reader that represents the Spec's leftover. This is the
+   interface for sequences of exchanges on one connection.
+   ================================================================================================ *)
+Variable rtail : list N -> list N.           (* the Spec's incomplete last frame *)
+Hypothesis H_rf_fuel : forall F1 F2 s fi, length s < F1 -> length s < F2 -> rf F1 s fi = rf F2 s fi.
+Hypothesis H_rf_app : forall F s1 s2 fi, length (s1 ++ s2) < F ->
+  rf F (s1 ++ s2) fi =
+  match rf F s1 FinPending with
+  | (fs1, EndPending) => (fs1 ++ fst (rf F (rtail s1 ++ s2) fi), snd (rf F (rtail s1 ++ s2) fi))
+  | x => x
+  end.
+Hypothesis H_rtail_len : forall s, length (rtail s) <= length s.
+
+Definition represents (r : reader) (t : list N) : Prop :=
+  exists st b m, r = rd st b /\ wf b /\ okl (b_pend b) /\ st_ok st /\
+    forall fut F fi, m + length fut < F -> okl fut -> ref_from F st (b_pend b ++ fut) fi = rf F (t ++ fut) fi.
+
+Lemma represents_fresh : represents (rd init buf_new) [].
+Proof using All.
+  exists init, buf_new, 0. split; [reflexivity|]. split; [apply wf_new|]. split; [exact okl_nil|]. split; [exact H_init_ok|].
+  intros fut F fi _ _. cbn [buf_new b_pend app]. apply H_init.
+Qed.
+
+Lemma liftr_inj r1 r2 : liftr r1 = liftr r2 -> r1 = r2.
+Proof.
+  destruct r1 as [l1 e1], r2 as [l2 e2]. unfold liftr. cbn [fst snd]. intros H. inversion H as [[Hm He]]. f_equal.
+  clear -Hm. revert l2 Hm. induction l1 as [|x l1 IH]; intros [|y l2] Hm; try discriminate; [reflexivity|].
+  cbn [map] in Hm. inversion Hm; subst. f_equal. now apply IH.
+Qed.
+
+Lemma okl_sbytes n : Forall okl n -> okl (sbytes n).
+Proof using okl_nil okl_app.
+  induction 1 as [|c n Hc Hn IH]; [exact okl_nil|]. destruct c; [exact okl_nil|]. cbn [sbytes]. now apply okl_app.
+Qed.
+
+(* from a representing reader the run over any schedule is the Spec on leftover ++ new bytes.
+   G: any fuel above pending + new bytes + 1 (e.g. run_fuel r n); F: any Spec fuel above the stream length *)
+Theorem run_represents : forall r t n fi G F,
+  represents r t -> Forall okl n ->
+  buf_len (r_buf r) + length (sbytes n) + 1 < G -> length (t ++ sbytes n) < F ->
+  run_reader G false r n fi = liftr (rf F (t ++ sbytes n) (sfin n fi)).
+Proof using All.
+  intros r t n fi G F (st & b & m & -> & Hwf & Hok & Hst & Hrep) Hokn HG HF. cbn [rd r_buf] in HG. unfold buf_len in HG.
+  set (F' := S (F + m + length (b_pend b ++ sbytes n) + length (t ++ sbytes n))).
+  rewrite (run_ref_from G st b n fi F' Hwf Hok Hokn Hst); [|unfold rmeasure; rewrite app_length; lia|unfold F'; lia].
+  rewrite Hrep; [|unfold F'; rewrite !app_length; lia|now apply okl_sbytes].
+  rewrite (H_rf_fuel F' F); [reflexivity|unfold F'; lia|exact HF].
+Qed.
+
+(* ... and if that run ends waiting, the reader it leaves behind represents the Spec's new leftover;
+   the frames delivered are the Spec's frames *)
+Theorem represents_step : forall r t n G r1 l1,
+  represents r t -> Forall okl n ->
+  buf_len (r_buf r) + length (sbytes n) + 1 < G ->
+  run_reader_st G r n FinPending = (r1, (l1, EndPending)) ->
+  represents r1 (rtail (t ++ sbytes n)) /\
+  l1 = map IFrame (fst (rf (S (length (t ++ sbytes n))) (t ++ sbytes n) FinPending)) /\
+  snd (rf (S (length (t ++ sbytes n))) (t ++ sbytes n) FinPending) = EndPending.
+Proof using All.
+  intros r t n G r1 l1 Hrep Hokn HG E.
+  pose proof Hrep as (st & b & m & -> & Hwf & Hok & Hst & Href). cbn [rd r_buf] in HG. unfold buf_len in HG.
+  assert (Hm : rmeasure st b n < G) by (unfold rmeasure; rewrite !app_length in *; lia).
+  destruct (run_st_pending G st b n r1 l1 Hwf Hok Hokn Hst Hm E) as (Hw & Hsf & (cs & Hcs)).
+  pose proof (run_represents (rd st b) t n FinPending G (S (length (t ++ sbytes n))) Hrep Hokn ltac:(cbn [rd r_buf]; unfold buf_len; lia) ltac:(lia)) as Hrun.
+  rewrite <- run_reader_st_snd, E in Hrun. cbn [snd] in Hrun. rewrite Hsf in Hrun.
+  set (s1 := t ++ sbytes n) in *. set (F0 := S (length s1)) in *.
+  destruct (rf F0 s1 FinPending) as [fs1 e1] eqn:Erf. unfold liftr in Hrun. cbn [fst snd] in Hrun. inversion Hrun as [[Hl1 He1]]. subst e1.
+  split; [|split; reflexivity].
+  destruct Hw as (st1 & b1 & -> & Hwf1 & Hok1 & Hst1 & Hlt1 & Hprep).
+  assert (Hb1 : length (b_pend b1) <= length (b_pend b ++ sbytes n)) by (cbn [rd r_buf] in Hcs; rewrite Hcs, app_length; lia).
+  exists st1, b1, (m + length s1 + length (b_pend b ++ sbytes n) + 3). split; [reflexivity|]. split; [assumption|]. split; [assumption|]. split; [assumption|].
+  intros fut F fi HF Hokf.
+  set (n2 := match fut with [] => [] | _ => [fut] end).
+  assert (Hn2 : sbytes n2 = fut /\ sfin n2 fi = fi /\ Forall okl n2).
+  { unfold n2. destruct fut; [repeat split; constructor|]. cbn [sbytes sfin]. rewrite app_nil_r. repeat split. constructor; [assumption|constructor]. }
+  destruct Hn2 as (Hs2 & Hf2 & Hokn2).
+  destruct (sfin_pending_app n Hsf n2 fi) as [Hsa Hfa].
+  pose proof (H_rtail_len s1) as Htl.
+  (* the run over n ++ n2, computed in two ways *)
+  pose proof (run_st_app G st b n n2 fi F (S F) Hwf Hok Hokn Hokn2 Hst Hm
+                ltac:(rewrite Hs2; lia) ltac:(unfold rmeasure; rewrite Hs2; lia)) as Happ.
+  rewrite E in Happ.
+  pose proof (run_reader_st_snd (S F) (rd st b) (n ++ n2) fi) as H1. rewrite Happ in H1.
+  pose proof (run_reader_st_snd F (rd st1 b1) n2 fi) as H2.
+  destruct (run_reader_st F (rd st1 b1) n2 fi) as [r2 [l2 e2]]. cbn [snd] in H1, H2.
+  assert (Hokna : Forall okl (n ++ n2)) by (apply Forall_app; split; assumption).
+  rewrite (run_represents (rd st b) t (n ++ n2) fi (S F) F Hrep Hokna) in H1;
+    [|cbn [rd r_buf]; unfold buf_len; rewrite Hsa, Hs2, !app_length in *; lia|rewrite Hsa, Hs2, app_assoc; fold s1; rewrite app_length; lia].
+  rewrite Hsa, Hfa, Hs2, Hf2, app_assoc in H1. fold s1 in H1.
+  rewrite (H_rf_app F s1 fut fi) in H1 by (rewrite app_length; lia).
+  rewrite (H_rf_fuel F F0 s1 FinPending) in H1 by (unfold F0; lia).
+  rewrite Erf in H1.
+  rewrite (run_ref_from F st1 b1 n2 fi F Hwf1 Hok1 Hokn2 Hst1) in H2
+    by (unfold rmeasure; rewrite Hs2, !app_length in *; lia).
+  rewrite Hs2, Hf2 in H2.
+  destruct (rf F (rtail s1 ++ fut) fi) as [fs' e'] eqn:Erf'. cbn [fst snd] in H1.
+  unfold liftr in H1. cbn [fst snd] in H1. rewrite map_app, <- Hl1 in H1. inversion H1 as [[Hl He]]. apply app_inv_head in Hl. subst l2 e2.
+  symmetry in H2. change (map IFrame fs', e') with (liftr (fs', e')) in H2. now apply liftr_inj in H2.
+Qed.
+
+(* the same for a run that does not end waiting (EOF, I/O error, framing error): items and ending are the Spec's *)
+Corollary run_st_represents : forall r t n fi G F,
+  represents r t -> Forall okl n ->
+  buf_len (r_buf r) + length (sbytes n) + 1 < G -> length (t ++ sbytes n) < F ->
+  snd (run_reader_st G r n fi) = liftr (rf F (t ++ sbytes n) (sfin n fi)).
+Proof using All. intros. rewrite run_reader_st_snd. now apply run_represents. Qed.
 
 End Generic.
